@@ -7,7 +7,7 @@ pid=$(python3 -c "import json,sys; print(json.load(open('$d/meta.json'))['proper
 s=$(mktemp -d /var/tmp/seed_XXXXXX)
 trap 'rm -rf "$s"' EXIT
 cp -r /repo/src /repo/include "$s"/ && (cd "$s" && git init -q . && git apply --whitespace=nowarn "$OLDPWD/$d/patch.diff") || { echo "patch does not apply"; exit 2; }
-out=$(VERIF_REPO="$s" "$(dirname "$0")/../check" "$pid" "$tier" 2>/dev/null); rc=$?
+out=$(VERIF_EVIDENCE_DIR="$s/evidence" VERIF_REPO="$s" "$(dirname "$0")/../check" "$pid" "$tier" 2>/dev/null); rc=$?
 echo "$out" | grep -E "^(VIOLATION|UNDECIDED|OK|KNOWN)" | cut -c1-260
 case $rc in
  1) echo "DETECTED $d ($pid)";;
